@@ -746,7 +746,8 @@ func (f *STFS) Rename(oldname, newname string) error {
 	f.ioLock.Lock()
 	defer f.ioLock.Unlock()
 
-	if root, err := f.metadata.Metadata.GetRootPath(context.Background()); err != nil || root == oldname {
+	// The root can't be renamed, however it is spelled ("/", ".", "./" are the same entry)
+	if root, err := f.metadata.Metadata.GetRootPath(context.Background()); err != nil || root == oldname || pathext.IsRoot(oldname, false) {
 		return os.ErrInvalid
 	}
 
